@@ -21,6 +21,16 @@ CLAIMED = {
  "C20": ("Machine-checked proof (Coq) over an executable LTS model of anyio.functools.lru_cache (prims/Lru.v with embedded Lock model): for EVERY history of calls/wrapped-function completions/failures/native cancellations/ticks: value faithfulness, reuse of the first result, key independence, LRU order and least-recent eviction, expired-never-served (both forms) unconditionally; bounded retention under no_inflight_eviction; single flight and no internal error under no_inflight_eviction AND no_waited_eviction; and vm_compute REFUTATIONS without them (known findings F3, F8). Tied to the code by differential execution on a stepped loop (whole dict compared per step) + vm_compute sample + monitors; histories matching a known-finding predicate print KNOWN-FINDING, any other monitor hit is a VIOLATION.",
          "Trusted: Coq kernel, extraction, hand-written model faithful to functools.py:137-343 (checked by correspondence). Scope limits: single flight not claimed for maxsize=0 (bypass by design); Clear only at quiescence; wrapped function suspends once; cancellation = native Task.cancel() on a blocked caller.",
          "Rocq/Coq invariant proofs over all histories (conditional where the code violates the property, with refutation witnesses) + correspondence check", "DESIGN.md §6 C20"),
+
+ "C08": ("Machine-checked proof (Coq) in three layers: (1) on the S machine (scopes/Machine.v) for every state: checkpoint_if_cancelled suspends iff the caller's scope is effectively cancelled and otherwise returns without suspending; while spinning a resumption either yields again or raises the delivered cancellation; checkpoint() and cancel_shielded_checkpoint() always suspend once; (2) the fast-path shape table (prims/FastPath.v): every shape that starts with a cancellation check raises with zero effects when the scope is cancelled, every shape containing a yield suspends at least once otherwise, and all 17 table rows have both forms (Condition.wait cancelled entry keeps the lock); (3) the real primitive models (Lock, Semaphore, CapacityLimiter, Event, memory streams) take exactly those first segments; (4) every anyio.itertools traversal over synchronous sources, or yielding nothing, contains a checkpoint event (props/C08_itertools.v). The shape table is validated on every run against the REAL operations, each in a live and in an already cancelled scope, on stock asyncio, the eager task factory and uvloop (raised? effect performed? yielded?), plus the S-machine correspondence with a checkpoint-heavy profile.",
+         "Trusted: Coq kernel, extraction, the hand-written shape table (validated row by row, exhaustively, not proved against the source). functools.reduce delegates its checkpoint to the awaited callback when it is invoked (documented scope, only the zero-call case is a row). fast_acquire and *_nowait/close are the documented exemptions (checked to be exemptions). States where an operation must really wait are C03's.",
+         "Rocq/Coq proofs (S-machine lemmas, shape-table theorems, per-model fast-path lemmas, itertools trace theorems) + exhaustive row-by-row validation of the table on three loop configurations", "DESIGN.md §6 C08"),
+ "C11": ("Machine-checked proof (Coq) over executable LTS models of anyio Event and Condition (prims/EventCond.v, embedding the proved Lock model): for EVERY op sequence (wait/set; acquire/release/notify n/notify_all/wait with its segments, resume, native and scope cancellation before / in the same cycle as / after the selecting notification): no early or spurious wake-up, set releases all present and later waiters, notify(n) wakes exactly the first min(n,|queue|) in arrival order, a notification handed to a waiter that is being cancelled is passed on (conservation: issued = consumed + in flight + dropped-to-nobody + lost, lost = 0 unless a NATIVE cancel lands inside the shielded re-acquire), wait returns only notified and holding the lock, non-holders are refused with the state unchanged (21 theorems; the pre-fix owner record kept as refuted witness). Tied to the code by differential execution on a stepped loop + vm_compute sample + a queue-automaton monitor + exhaustive small scope.",
+         "Trusted: Coq kernel, extraction, hand-written model faithful to _synchronization.py:276-385 and _asyncio.py Event/Lock (checked by correspondence). Documented scope: a native Task.cancel() inside wait()'s shielded re-acquire (impossible through AnyIO scopes) is modelled, exempt from the monitors and excluded by the explicit hypothesis clean_run; the Lock is assumed private to the Condition (a lock shared between conditions or released directly is outside the model).",
+         "Rocq/Coq invariant proofs over all op sequences + model/implementation correspondence check", "DESIGN.md §6 C11"),
+ "C16": ("Machine-checked proof (Coq) over executable pure models of BufferedByteReceiveStream (pure/Buffered.v) and the text wrappers (pure/Text.v: utf-8, utf-16/-le/-be, utf-32/-le/-be, latin-1 incremental decoders as byte automata, stateful encoder): for ALL byte lists, chunkings, wrapped-stream kinds and call sequences: conservation/prefix property with interleaved feed_data, receive returns 1..n bytes, receive_exactly exactly n or IncompleteRead iff the stream is shorter, receive_until excludes and consumes the delimiter with the exact DelimiterNotFound boundary and the search-offset lemma, failed calls hand out nothing and leave buffer++stream untouched, text decoding is invariant under any split and non-empty, send-then-receive is the identity for all eight encodings (27 theorems; the pre-fix stateless encoder kept as refuted witness). Tied to the code by exhaustive small-alphabet enumeration x all chunkings x call sequences plus random long inputs against the real classes, vm_compute sample, independent monitors.",
+         "Trusted: Coq kernel, extraction, hand-written models (checked by correspondence); CPython's codecs incremental decoders are the modelled environment for the text automata (validated exhaustively on boundary code points and byte sequences).",
+         "Rocq/Coq proofs for all inputs/chunkings/op sequences + exhaustive and random model/implementation correspondence", "DESIGN.md §6 C16"),
 }
 PENDING_REASON = "check under construction in this session (model + theorems + correspondence not yet registered); see DESIGN.md §6"
 
